@@ -24,7 +24,7 @@ BOUNDS = {'quick': {'sections': '<= 3 below the root, any parent structure (dept
           'thorough': {'sections': '<= 4 below the root (depth <= 4)', 'titles': POOL, 'results': 'one per section + one on the root'}}
 ASSUMPTIONS = ['titles are drawn from a pool chosen by reading the code (ordinary, dotted, equal siblings, the reserved page name, empty, '
                'containing a slash, dot-dot); the solver chooses shape and titles',
-               'results are stub TestResults (anchor + description); up to three of them (solver-chosen) carry a plot template, some of them the same plot; MplPlot.save is a stub that writes a small file',
+               'results are stub TestResults (anchor + description); up to three of them (solver-chosen) carry a plot template, some of them the same plot; MplPlot.save is a stub that writes a small file; for trees of <= 1 section the figures are written sequentially or by a pool of 2 / 3 workers (solver-chosen; multiprocessing.pool.ThreadPool stands in for the process pool: same Pool.map code)',
                'sections with the same chain of titles share one page (their texts are concatenated): accepted as long as every result appears once',
                'optionally (solver-chosen) the same Rst object formats a second, unrelated report between formatting and writing the first',
                'a toctree entry is resolved relative to the directory of the page that contains it (Sphinx semantics)']
@@ -103,10 +103,20 @@ def make_harness(k):
             else:           # larger trees: one fixed arrangement (two results share a plot, a third has its own)
                 with_plot = {'test-root', 'test-s0', f'test-s{k - 1}'}
                 same = {'test-root', 'test-s0'}
-            rst = Rst(Representation(_PlotRepresenter(with_plot, same) if with_plot else EmptyRepresenter()))
+            # plots written sequentially or by a pool of worker processes (n_workers option), small trees only
+            n_workers = [None, 2, 3][ex.choice(3, 'n_workers')] if (with_plot and k <= 1) else None
+            ex.note('n_workers', n_workers)
+            rst = Rst(Representation(_PlotRepresenter(with_plot, same) if with_plot else EmptyRepresenter()), n_workers=n_workers)
             import valjean.javert.mpl as mplmod
             saved_save = mplmod.MplPlot.save
             mplmod.MplPlot.save = lambda self, name='fig.png': open(name, 'wb').write(b'PNG')
+            # the check itself runs in a daemonic pool worker, which may not fork: the process pool of the report writer is
+            # replaced by multiprocessing's thread pool (a subclass of the same Pool class: same map / chunking code)
+            import types
+            import multiprocessing.pool
+            import valjean.javert.rst as rstmod
+            saved_mp = rstmod.mp
+            rstmod.mp = types.SimpleNamespace(Pool=multiprocessing.pool.ThreadPool)
             raised = None
             try:
                 fmt = rst.format_report(report=root, author='me', version='0')
@@ -178,6 +188,7 @@ def make_harness(k):
         finally:
             try:
                 mplmod.MplPlot.save = saved_save
+                rstmod.mp = saved_mp
             except NameError:
                 pass
             shutil.rmtree(base, ignore_errors=True)
